@@ -86,17 +86,7 @@ pub struct Aggregate {
 
 const HASH_CAP: usize = 400_000;
 
-struct PanicInfo {
-    message: String,
-    file: String,
-    line: u32,
-    task: Option<usize>,
-    role: String,
-}
-
-thread_local! {
-    static PANIC: RefCell<Option<PanicInfo>> = RefCell::new(None);
-}
+use exec::{PanicInfo, PANIC};
 
 fn install_panic_hook() {
     panic::set_hook(Box::new(|info| {
@@ -418,6 +408,7 @@ impl Driver for WorkDriver {
             }
             if let Some(rf) = &sh.replay_mode {
                 let sc = rf.scenario.clone();
+                props::set_property(&sc.property);
                 let online = props::online_for(&sc);
                 sched::arm(&sc.sched);
                 exec::set_current(exec::Prepared { scenario: sc, online });
@@ -562,6 +553,7 @@ fn cmd_run(args: &[String]) -> i32 {
     if let Some(ids) = arg(args, "--assume-open") {
         props::set_open(ids.split(',').filter(|s| !s.is_empty()).map(|s| s.to_string()));
     }
+    props::set_property(&property);
     let mut strata = props::plan(&property);
     if let Some(name) = only_stratum {
         strata.retain(|s| s.name == name);
